@@ -46,6 +46,17 @@ int main(int argc, char** argv) {
   Rng g(seed_from_args(argc, argv));
   bool thorough = thorough_from_args(argc, argv);
   int N = thorough ? 4000 : 140;
+  if (const char* one = getenv("VERIF_ONE_INPUT")) {
+    // single-input mode (used by the shrinker of ./check): "S(subj) S(clip)"; the same region record as in the generic loop
+    std::istringstream is(one);
+    GpInput in; in.R = 0; in.kind = "one";
+    if (!parse_paths(is, in.subj) || !parse_paths(is, in.clip)) { fprintf(stderr, "VERIF_ONE_INPUT: cannot parse\n"); return 2; }
+    auto probes = gen_probes(g, in.subj, in.clip, 120);
+    std::string sols = run_all(g, in, true);
+    emitS("region", "REGIONS " + S(in.subj) + " " + S(in.clip) + " " + probes_str(probes) + " " + sols);
+    flush_stats();
+    return 0;
+  }
   // fixed corpus first: two overlapping squares, nested opposite squares, a pentagram
   std::vector<GpInput> corpus;
   { GpInput c; c.R = 100; c.kind = "corpus.squares"; c.subj = {rect_path(0, 0, 100, 100)}; c.clip = {rect_path(50, 37, 150, 141)}; corpus.push_back(c); }
